@@ -1,9 +1,506 @@
 package main
 
 // R1 direct replay: build an in-package Go test from the solver's model and run the real function.
+// The test is injected with `go test -overlay` (nothing is written into /repo).
 
-func (cr *checkRun) replayDirect(r *ProofResult, o *Obligation, rf *ReplayFile, dir, base string) bool {
-	return false
+import (
+	"bytes"
+	"context"
+	"encoding/json"
+	"fmt"
+	"go/types"
+	"math/big"
+	"os"
+	"os/exec"
+	"path/filepath"
+	"sort"
+	"strconv"
+	"strings"
+	"time"
+
+	"golang.org/x/tools/go/ssa"
+)
+
+type concreteModel struct {
+	vals  map[int]string              // term id -> raw value
+	heap  map[string]map[string]string // heap key -> ref value (hex) -> value
+	elems map[string]map[string]map[string]string
+	strs  map[int]map[string]string // string term id -> idx -> byte ; "len" -> len
 }
 
-func runReplayTest(testFile, fn string) (string, bool) { return "", false }
+func parseBV(s string) (*big.Int, bool) {
+	s = strings.TrimSpace(s)
+	switch {
+	case strings.HasPrefix(s, "#x"):
+		v, ok := new(big.Int).SetString(s[2:], 16)
+		return v, ok
+	case strings.HasPrefix(s, "#b"):
+		v, ok := new(big.Int).SetString(s[2:], 2)
+		return v, ok
+	case strings.HasPrefix(s, "(_ bv"):
+		f := strings.Fields(s[5:])
+		v, ok := new(big.Int).SetString(f[0], 10)
+		return v, ok
+	}
+	return nil, false
+}
+
+func (cm *concreteModel) num(t *Term) (*big.Int, bool) {
+	if t.IsConst() {
+		return t.ConstVal(), true
+	}
+	if s, ok := cm.vals[t.id]; ok {
+		return parseBV(s)
+	}
+	return nil, false
+}
+
+func buildModel(o *Obligation, raw map[int]string) *concreteModel {
+	cm := &concreteModel{vals: raw, heap: map[string]map[string]string{}, elems: map[string]map[string]map[string]string{}, strs: map[int]map[string]string{}}
+	for _, q := range o.Queries {
+		v, ok := raw[q.id]
+		if !ok {
+			continue
+		}
+		switch {
+		case q.Op == "select" && len(q.Args) == 2:
+			base, idx := q.Args[0], q.Args[1]
+			if len(base.Args) == 0 && strings.HasPrefix(base.Op, "H.") {
+				if r, ok := cm.num(idx); ok {
+					k := base.Op[2:]
+					if cm.heap[k] == nil {
+						cm.heap[k] = map[string]string{}
+					}
+					cm.heap[k][r.Text(16)] = v
+				}
+			} else if base.Op == "select" && len(base.Args[0].Args) == 0 && strings.HasPrefix(base.Args[0].Op, "H.elems") {
+				r, ok1 := cm.num(base.Args[1])
+				i, ok2 := cm.num(idx)
+				if ok1 && ok2 {
+					k := base.Args[0].Op[2:]
+					if cm.elems[k] == nil {
+						cm.elems[k] = map[string]map[string]string{}
+					}
+					if cm.elems[k][r.Text(16)] == nil {
+						cm.elems[k][r.Text(16)] = map[string]string{}
+					}
+					cm.elems[k][r.Text(16)][i.Text(16)] = v
+				}
+			}
+		case q.Op == "gs.len" && len(q.Args) == 1:
+			if cm.strs[q.Args[0].id] == nil {
+				cm.strs[q.Args[0].id] = map[string]string{}
+			}
+			cm.strs[q.Args[0].id]["len"] = v
+		case q.Op == "gs.at" && len(q.Args) == 2:
+			if i, ok := cm.num(q.Args[1]); ok {
+				if cm.strs[q.Args[0].id] == nil {
+					cm.strs[q.Args[0].id] = map[string]string{}
+				}
+				cm.strs[q.Args[0].id][i.Text(16)] = v
+			}
+		}
+	}
+	return cm
+}
+
+type codegen struct {
+	cm    *concreteModel
+	pkg   *types.Package
+	sb    strings.Builder
+	n     int
+	skip  string
+	objs  map[string]string // ref value -> variable
+	limit int64
+}
+
+func (g *codegen) qual(p *types.Package) string {
+	if p == g.pkg {
+		return ""
+	}
+	return p.Name()
+}
+
+func (g *codegen) typeStr(t types.Type) string { return types.TypeString(t, g.qual) }
+
+func (g *codegen) fresh(prefix string) string {
+	g.n++
+	return fmt.Sprintf("%s%d", prefix, g.n)
+}
+
+func intLit(v *big.Int, t types.Type) string {
+	w, signed, _ := intInfo(t)
+	if signed {
+		v = signedVal(v, w)
+	}
+	return v.String()
+}
+
+// strValue builds a Go string literal for a string term from the model.
+func (g *codegen) strValue(term *Term) string {
+	m := g.cm.strs[term.id]
+	n := int64(0)
+	if m != nil {
+		if v, ok := parseBV(m["len"]); ok {
+			n = v.Int64()
+		}
+	}
+	if n > g.limit {
+		g.skip = fmt.Sprintf("model needs a string of %d bytes", n)
+		return `""`
+	}
+	b := bytes.Repeat([]byte{'a'}, int(n))
+	special := false
+	for k, v := range m {
+		if k == "len" {
+			continue
+		}
+		i, _ := new(big.Int).SetString(k, 16)
+		bv, ok := parseBV(v)
+		if i != nil && ok && i.IsInt64() && i.Int64() >= 0 && i.Int64() < n {
+			b[i.Int64()] = byte(bv.Int64())
+			special = true
+		}
+	}
+	if !special && n > 64 {
+		return fmt.Sprintf("strings.Repeat(\"a\", %d)", n)
+	}
+	return strconv.Quote(string(b))
+}
+
+// value returns a Go expression for v (the symbolic entry value of a parameter) under the model.
+func (g *codegen) value(v Value, t types.Type) string {
+	switch x := v.(type) {
+	case Scalar:
+		switch {
+		case x.T.Sort == SStr:
+			return g.typeStr(t) + "(" + g.strValue(x.T) + ")"
+		case x.T.Sort == SBool:
+			if g.cm.vals[x.T.id] == "true" {
+				return "true"
+			}
+			return "false"
+		case bvWidth(x.T.Sort) > 0:
+			if _, _, ok := intInfo(t); ok {
+				n, _ := g.cm.num(x.T)
+				if n == nil {
+					n = big.NewInt(0)
+				}
+				return g.typeStr(t) + "(" + intLit(n, t) + ")"
+			}
+		}
+	case SliceV:
+		return g.sliceValue(x.Ref, x.Off, x.Len, x.Elem, t)
+	case PtrV:
+		if x.Kind == KObj {
+			return g.ptrValue(x.Ref, x.Elem)
+		}
+	case StructV:
+		u := t.Underlying().(*types.Struct)
+		var fs []string
+		for i, f := range x.F {
+			if !u.Field(i).Exported() && u.Field(i).Pkg() != g.pkg {
+				continue
+			}
+			fs = append(fs, u.Field(i).Name()+": "+g.value(f, u.Field(i).Type()))
+		}
+		return g.typeStr(t) + "{" + strings.Join(fs, ", ") + "}"
+	}
+	return "*new(" + g.typeStr(t) + ")"
+}
+
+func (g *codegen) sliceValue(ref, off, ln *Term, elem types.Type, t types.Type) string {
+	n, _ := g.cm.num(ln)
+	r, _ := g.cm.num(ref)
+	o, _ := g.cm.num(off)
+	return g.sliceFromModel(r, o, n, elem, t)
+}
+
+func (g *codegen) sliceFromModel(r, o, n *big.Int, elem types.Type, t types.Type) string {
+	if n == nil || r == nil || r.Sign() == 0 {
+		return "nil"
+	}
+	if !n.IsInt64() || n.Int64() > g.limit {
+		g.skip = fmt.Sprintf("model needs a slice of %s elements", n.String())
+		return "nil"
+	}
+	if o == nil {
+		o = big.NewInt(0)
+	}
+	name := g.fresh("s")
+	fmt.Fprintf(&g.sb, "\t%s := make(%s, %d)\n", name, g.typeStr(t), n.Int64())
+	if isByte(elem) || bvWidthOfType(elem) > 0 {
+		em := g.cm.elems["elems_"+sanitize(typeKey(elem))]
+		if em == nil {
+			em = g.cm.elems[sanitize("elems:"+typeKey(elem))]
+		}
+		if em != nil {
+			cells := em[r.Text(16)]
+			var ks []string
+			for k := range cells {
+				ks = append(ks, k)
+			}
+			sort.Strings(ks)
+			for _, k := range ks {
+				i, _ := new(big.Int).SetString(k, 16)
+				rel := new(big.Int).Sub(i, o)
+				bv, ok := parseBV(cells[k])
+				if ok && rel.Sign() >= 0 && rel.Cmp(n) < 0 {
+					fmt.Fprintf(&g.sb, "\t%s[%d] = %s\n", name, rel.Int64(), intLit(bv, elem))
+				}
+			}
+		}
+	}
+	return name
+}
+
+func bvWidthOfType(t types.Type) int {
+	w, _, ok := intInfo(t)
+	if ok {
+		return w
+	}
+	return 0
+}
+
+func (g *codegen) heapVal(key string, ref *big.Int) (string, bool) {
+	m := g.cm.heap[sanitize(key)]
+	if m == nil {
+		return "", false
+	}
+	v, ok := m[ref.Text(16)]
+	return v, ok
+}
+
+func (g *codegen) ptrValue(ref *Term, elem types.Type) string {
+	r, _ := g.cm.num(ref)
+	return g.objAt(r, elem)
+}
+
+func (g *codegen) objAt(r *big.Int, elem types.Type) string {
+	if r == nil || r.Sign() == 0 {
+		return "nil"
+	}
+	key := typeKey(elem) + "@" + r.Text(16)
+	if v, ok := g.objs[key]; ok {
+		return v
+	}
+	st, ok := elem.Underlying().(*types.Struct)
+	if !ok {
+		name := g.fresh("p")
+		fmt.Fprintf(&g.sb, "\t%s := new(%s)\n", name, g.typeStr(elem))
+		if v, ok := g.heapVal(objKey(elem, ""), r); ok {
+			if bv, ok := parseBV(v); ok {
+				fmt.Fprintf(&g.sb, "\t*%s = %s(%s)\n", name, g.typeStr(elem), intLit(bv, elem))
+			}
+		}
+		return name
+	}
+	name := g.fresh("o")
+	g.objs[key] = name
+	fmt.Fprintf(&g.sb, "\t%s := new(%s)\n", name, g.typeStr(elem))
+	g.fillStruct(name, elem, elem, "", r, st, 0)
+	return name
+}
+
+func (g *codegen) fillStruct(expr string, root types.Type, t types.Type, path string, r *big.Int, st *types.Struct, depth int) {
+	if depth > 4 {
+		return
+	}
+	for i := 0; i < st.NumFields(); i++ {
+		f := st.Field(i)
+		if f.Name() == "_" || (!f.Exported() && f.Pkg() != g.pkg) {
+			continue
+		}
+		fp := path + "." + fieldName(st, i)
+		fe := expr + "." + f.Name()
+		ft := f.Type()
+		if isTimeType(ft) {
+			continue
+		}
+		switch u := ft.Underlying().(type) {
+		case *types.Basic:
+			v, ok := g.heapVal(objKey(root, fp), r)
+			if !ok {
+				continue
+			}
+			switch {
+			case isString(ft), isFloat(ft):
+				// string fields: content unknown to the model; leave zero
+			case isBool(ft):
+				fmt.Fprintf(&g.sb, "\t%s = %s\n", fe, v)
+			default:
+				if bv, ok := parseBV(v); ok {
+					if _, _, isInt := intInfo(ft); isInt {
+						fmt.Fprintf(&g.sb, "\t%s = %s(%s)\n", fe, g.typeStr(ft), intLit(bv, ft))
+					}
+				}
+			}
+		case *types.Pointer:
+			v, ok := g.heapVal(objKey(root, fp), r)
+			if !ok {
+				continue
+			}
+			if bv, ok := parseBV(v); ok && bv.Sign() != 0 {
+				if stdOpaque(u.Elem()) {
+					continue
+				}
+				sub := g.objAt(bv, u.Elem())
+				fmt.Fprintf(&g.sb, "\t%s = %s\n", fe, sub)
+			}
+		case *types.Slice:
+			rv, ok1 := g.heapVal(objKey(root, fp+"#ref"), r)
+			lv, ok2 := g.heapVal(objKey(root, fp+"#len"), r)
+			ov, _ := g.heapVal(objKey(root, fp+"#off"), r)
+			if !ok1 && !ok2 {
+				continue
+			}
+			rr, _ := parseBV(rv)
+			ll, _ := parseBV(lv)
+			oo, _ := parseBV(ov)
+			if rr == nil && ll != nil && ll.Sign() > 0 {
+				rr = big.NewInt(1)
+			}
+			sv := g.sliceFromModel(rr, oo, ll, u.Elem(), ft)
+			fmt.Fprintf(&g.sb, "\t%s = %s\n", fe, sv)
+		case *types.Struct:
+			g.fillStruct(fe, root, ft, fp, r, u, depth+1)
+		}
+	}
+}
+
+// replayDirect generates and runs the replay test. Returns true if the real code misbehaves
+// the way the failed obligation says (panic for safety obligations).
+func (cr *checkRun) replayDirect(r *ProofResult, o *Obligation, rf *ReplayFile, dir, base string) bool {
+	p := r.proof
+	if p == nil || p.fn == nil || o.RawModel == nil {
+		return false
+	}
+	fn := p.fn
+	if fn.Pkg == nil && fn.Origin() != nil {
+		// generic instance: call through the origin with explicit instantiation is not generated
+	}
+	pkg := pkgOfFunc(fn)
+	if pkg == nil {
+		return false
+	}
+	switch o.Kind {
+	case "bounds", "slice", "nil", "div", "panic", "makeslice", "assertT", "nilmap", "shift":
+	default:
+		rf.Note = "obligation kind " + o.Kind + " has no executable oracle in the direct replay; the model is recorded"
+		rf.ReplayKind = "none"
+		return false
+	}
+	g := &codegen{cm: buildModel(o, o.RawModel), pkg: pkg, objs: map[string]string{}, limit: 64 << 20}
+	var args []string
+	for i, prm := range fn.Params {
+		v := p.params[prm.Name()]
+		if v == nil && i < len(fn.Params) {
+			return false
+		}
+		args = append(args, g.value(v, prm.Type()))
+	}
+	if g.skip != "" {
+		rf.Note = "replay skipped: " + g.skip
+		return false
+	}
+	if p.privateBytes || true {
+		// nothing to prepare: ghosts have no run-time counterpart
+	}
+	var call string
+	if fn.Signature.Recv() != nil {
+		call = fmt.Sprintf("(%s).%s(%s)", args[0], fn.Name(), strings.Join(args[1:], ", "))
+	} else {
+		name := fn.Name()
+		if fn.Origin() != nil {
+			name = fn.Origin().Name()
+		}
+		call = fmt.Sprintf("%s(%s)", name, strings.Join(args, ", "))
+	}
+	results := ""
+	if n := fn.Signature.Results().Len(); n > 0 {
+		var us []string
+		for i := 0; i < n; i++ {
+			us = append(us, "_")
+		}
+		results = strings.Join(us, ", ") + " = "
+	}
+	imports := map[string]bool{"testing": true, "fmt": true}
+	body := g.sb.String()
+	if strings.Contains(body, "strings.Repeat") || strings.Contains(call, "strings.Repeat") {
+		imports["strings"] = true
+	}
+	for _, imp := range pkg.Imports() {
+		if strings.Contains(body, imp.Name()+".") || strings.Contains(call, imp.Name()+".") {
+			imports[imp.Path()] = true
+		}
+	}
+	var ib []string
+	for k := range imports {
+		ib = append(ib, strconv.Quote(k))
+	}
+	sort.Strings(ib)
+	src := fmt.Sprintf(`// Code generated by govc replay for obligation %s. DO NOT EDIT.
+
+package %s
+
+import (
+	%s
+)
+
+func TestGovcReplay(t *testing.T) {
+	defer func() {
+		if r := recover(); r != nil {
+			fmt.Printf("GOVC-REPLAY: PANIC %%v\n", r)
+			return
+		}
+		fmt.Println("GOVC-REPLAY: returned normally")
+	}()
+%s	%s%s
+}
+`, o.Name, pkg.Name(), strings.Join(ib, "\n\t"), body, results, call)
+	testFile := filepath.Join(dir, base+"_test.go")
+	os.WriteFile(testFile, []byte(src), 0644)
+	rf.TestFile = testFile
+	rf.ReplayKind = "R1 direct (go test -overlay, in-package)"
+	out, panicked := runReplayTest(testFile, pkg.Path())
+	rf.TestOutput = truncStr(out, 4000)
+	return panicked
+}
+
+// runReplayTest runs the generated test against /repo through an overlay.
+func runReplayTest(testFile, pkgPath string) (string, bool) {
+	modDir, rel := moduleOf(pkgPath)
+	if modDir == "" {
+		return "cannot locate package " + pkgPath, false
+	}
+	target := filepath.Join(modDir, rel, "zz_govc_replay_test.go")
+	ov := map[string]map[string]string{"Replace": {target: testFile}}
+	ovData, _ := json.Marshal(ov)
+	ovFile := testFile + ".overlay.json"
+	os.WriteFile(ovFile, ovData, 0644)
+	ctx, cancel := context.WithTimeout(context.Background(), 120*time.Second)
+	defer cancel()
+	cmd := exec.CommandContext(ctx, "go", "test", "-overlay", ovFile, "-tags", "verif", "-vet=off", "-count=1", "-v", "-timeout", "60s", "-run", "^TestGovcReplay$", "./"+rel)
+	cmd.Dir = modDir
+	cmd.Env = append(os.Environ(), "GOFLAGS=-mod=mod", "GOPROXY=off", "GOSUMDB=off", "GOTOOLCHAIN=local")
+	out, _ := cmd.CombinedOutput()
+	s := string(out)
+	return s, strings.Contains(s, "GOVC-REPLAY: PANIC") || strings.Contains(s, "panic:") || strings.Contains(s, "test timed out")
+}
+
+func moduleOf(pkgPath string) (dir, rel string) {
+	repo := "/repo"
+	if rd := os.Getenv("VERIF_REPO"); rd != "" {
+		repo = rd
+	}
+	const root = "golang.org/x/telemetry"
+	switch {
+	case strings.HasPrefix(pkgPath, root+"/godev"):
+		return filepath.Join(repo, "godev"), strings.TrimPrefix(strings.TrimPrefix(pkgPath, root+"/godev"), "/")
+	case strings.HasPrefix(pkgPath, root):
+		return repo, strings.TrimPrefix(strings.TrimPrefix(pkgPath, root), "/")
+	}
+	return "", ""
+}
+
+var _ = ssa.NaiveForm
